@@ -1,6 +1,7 @@
 package props
 
 import (
+	"math"
 	"encoding/json"
 	"fmt"
 	"strconv"
@@ -33,6 +34,8 @@ var c18ArgLists = []c18Args{
 	{`, null`, []refsem.Value{refsem.Null()}},
 	{`, -12.25, "x", true`, []refsem.Value{refsem.Num(-12.25), refsem.Str("x"), refsem.Bool(true)}},
 	{`, true`, []refsem.Value{refsem.Bool(true)}},
+	// whole numbers that are not small integers: negative zero, beyond 2^53, beyond 2^63
+	{`, -0, 9007199254740993, 10000000000000000000`, []refsem.Value{refsem.Num(math.Copysign(0, -1)), refsem.Num(9007199254740993), refsem.Num(1e19)}},
 	{`, {k: 1}, "s"`, []refsem.Value{func() refsem.Value { o := refsem.NewObj(); o.O.Set("k", refsem.Num(1)); return o }(), refsem.Str("s")}},
 }
 
@@ -96,7 +99,7 @@ func c18Class(f string) string {
 func init() {
 	fw.Register(&fw.Prop{
 		ID: "C18",
-		Rule: "every format string of length <= L over the symbols % s f v d - 0 3 x, times 12 argument lists, plus a width sweep across the 65536 limit; printf lists read, effect, read of one scalar location (the printf programs of C09's copy-time family); " +
+		Rule: "every format string of length <= L over the symbols % s f v d - 0 3 x, times 13 argument lists, plus a width sweep across the 65536 limit; printf lists read, effect, read of one scalar location (the printf programs of C09's copy-time family); " +
 			"a state is a directive-shape class of a format (e.g. %-ws%0wv); non-trivial = classes the model formats successfully with at least one argument list; each case compares exact stdout and outcome with the reference formatter",
 		Plan: func(t fw.Tier) int { return 82 },
 		Bound: func(t fw.Tier) string {
